@@ -11,6 +11,7 @@ RULE = (
     "non-default schedule that is binding for a W rule (a +-1/flip neighbour breaks capacity, span, selection count or "
     "work amount)."
 )
+TECHNIQUE = "Hypothesis-generated problems; admitted schedules and worker selections (steered / enumerated) judged by a z3-free reference model"
 ASSUMPTIONS = [
     "z3 answers and models trusted",
     "vf/adapter.py reads worker._busy_intervals and select._selection_dict correctly",
